@@ -52,6 +52,12 @@ def make_cases(ctx, n_pool, n_coll, n_stack, n_iter, cfgs, faults=True):
             sc = poolgen.gen_script(rng, t, faults=faults and i % 3 == 0)
             for c in cfgs:
                 cases.append(dict(exe=ex_pool[c], script=sc, replay_args=['pool'], tag=(kind, t['line'], c)))
+    if n_coll:
+        import random as _random
+        for k, t in enumerate(poolgen.boundary_colls()):
+            sc = poolgen.gen_script(_random.Random(1000 + k), t, nops=10)
+            for c in cfgs:
+                cases.append(dict(exe=ex_pool[c], script=sc, replay_args=['pool'], tag=('coll', t['line'] + ' (boundary)', c)))
     for i in range(n_pool // 2):
         t, sc = poolgen.gen_fragment_script(rng)
         for c in cfgs:
@@ -119,20 +125,29 @@ def live_overlap_oracle(log):
 def exec_lockstep(ctx, res, rexe):
     """memory_pool logs replayed through the Exec pool models (arena + list; every address, every upstream request, every
     range handed to the list): node_pool without the double-free check -> PoolExec (intrusive list), array_pool and node_pool
-    with the check -> OrderedPoolExec (address-ordered list), small_node_pool -> SmallPoolExec (chunked list)"""
+    with the check -> OrderedPoolExec (address-ordered list), small_node_pool -> SmallPoolExec (chunked list);
+    memory_pool_collection<node_pool|array_pool> -> CollExec over the intrusive / address-ordered list"""
     import subprocess
     steps = 0; div = 0; n = 0; per = {}
     if not rexe:
         return dict(exec_pool_logs=0, exec_pool_steps=0, exec_pool_divergences=0)
     for r in res:
         kind, tgt, c = r['case']['tag']
-        small = str(tgt).startswith('pool small ')
+        head = str(r['case']['script']).split('\n')[0]
+        if kind not in ('pool', 'coll'):
+            continue
         dbl = bool(build.CONFIGS[c]['DBL'])
-        ordered = str(tgt).startswith('pool array ') or (str(tgt).startswith('pool node ') and dbl)
-        if kind != 'pool' or not (small or ordered or str(tgt).startswith('pool node ')):
+        if head.startswith('pool small '):
+            topic = ['small']
+        elif head.startswith('pool array ') or (head.startswith('pool node ') and dbl):
+            topic = ['ordered', '1' if dbl else '0']
+        elif head.startswith('pool node '):
+            topic = ['0']
+        elif head.startswith('coll node ') or head.startswith('coll array ') or head.startswith('coll small '):
+            topic = ['coll', '1' if dbl else '0', str(build.CONFIGS[c]['FENCE'])]
+        else:
             continue
         n += 1
-        topic = ['small'] if small else (['ordered', '1' if dbl else '0'] if ordered else ['0'])
         out = subprocess.run([rexe, 'poolexec'] + topic, input=r['log'], stdout=subprocess.PIPE, text=True).stdout
         for ln in out.split('\n'):
             if ln.startswith('SUMMARY'):
@@ -144,4 +159,4 @@ def exec_lockstep(ctx, res, rexe):
                 if div <= 3:
                     ctx.tie_broken.append('correspondence (Exec pool): %s (%s cfg=%s)' % (ln[:300], tgt, c))
     return dict(exec_pool_logs=n, exec_pool_steps=steps, exec_pool_divergences=div, exec_pool_steps_intrusive=per.get('0', 0),
-                exec_pool_steps_ordered=per.get('ordered', 0), exec_pool_steps_small=per.get('small', 0))
+                exec_pool_steps_ordered=per.get('ordered', 0), exec_pool_steps_small=per.get('small', 0), exec_pool_steps_collection=per.get('coll', 0))
